@@ -19,6 +19,11 @@ C2S = ["", "cb.example:4444", "10.0.0.1", "%s%d", "a b", "[::1]:1"]
 SNIS = ["", "sni.example", "::1"]
 
 
+PAR_REQ = "GET /c?c2=par.example:1 HTTP/1.1\r\nHost: h\r\nConnection: close\r\n\r\n"
+PAR_ACT = lambda w, r: {"a": "par", "workers": w, "rounds": r, "reqs": [H(PAR_REQ)], "quiet_ms": 50}
+PAR_META = {"form": "par.example:1", "hdr": "", "host": "h", "sni": "", "tmpl": "none", "raw": True, "par": True}
+
+
 def tmpl_term(kind):
     return "(TLiteral %s)" % vlib.coq_str(TMPLS[kind]) if kind.startswith("literal") else TCOQ[kind]
 
@@ -57,6 +62,7 @@ def make_cases(rng, tier):
         meta.append({"form": "", "hdr": "", "host": "", "sni": sni, "tmpl": "none", "raw": True})
     acts.append({"a": "raw", "sni": "sni.example", "req": H("GET /c HTTP/1.1\r\nHost: real.example:99\r\nConnection: close\r\n\r\n"), "quiet_ms": 10})
     meta.append({"form": "", "hdr": "", "host": "real.example:99", "sni": "sni.example", "tmpl": "none", "raw": True})
+    acts.append(PAR_ACT(16 if tier == "quick" else 32, 10 if tier == "quick" else 60)); meta.append(dict(PAR_META))
     acts.append({"a": "runscript"}); meta.append({"run": True})
     cases.append({"cfg": {}, "acts": acts, "_meta": meta})
     # a template file edited, broken, removed and re-created between requests
@@ -96,7 +102,13 @@ def terms(case, res):
     out, inputs, ids = [], [], []
     port = (res.get("addr") or ":0").rsplit(":", 1)[1]
     fp = res.get("fingerprint", "")
+    pairs = []
     for m, a in zip(case["_meta"], res.get("acts") or []):
+        if m.get("par"):            # requests served at the same time: each response is a request of its own
+            pairs += [(dict(m, par=False), {"status": o.get("status"), "body": o.get("body", "")}) for o in a.get("par") or []]
+        else:
+            pairs.append((m, a))
+    for m, a in pairs:
         if "form" not in m:
             continue
         body = bytes.fromhex(a.get("body", "") or "")
@@ -167,8 +179,23 @@ def check(run):
     run.stream("requests", len(allterms), sum(1 for t in tgs if t not in (None,)),
                "all 24 presence combinations of c2 parameter / c2 header / Host / SNI, random requests with IDN, upper-case, over-long, ported, IPv6 and empty "
                "Hosts, c2 in the query and in a POST form, HTTP/1.0 over real TLS with and without SNI, listen port 443 when bindable; a template file "
-               "edited, broken, removed and re-created between requests (every state twice), including edits that keep the file's size and modification time; non-trivial = every request (tag = address source / template state)",
+               "160 (thorough: 1920) requests served CONCURRENTLY by 16-32 clients (IDs pairwise distinct, each script intact), also under the race detector; "
+               "a template file edited, broken, removed and re-created between requests (every state twice), including edits that keep the file's size and modification time; non-trivial = every request (tag = address source / template state)",
                [allinputs[0], allinputs[-1]], {"address_source_tags": dist})
+    # the same concurrent requests under Go's race detector: an unsynchronised source of IDs (or a shared buffer) is reported whatever the timing
+    okr, rbin, rlog = vlib.build_overlay_test(run.rundir, "internal/hsrv", go="go", race=True)
+    if not okr:
+        run.oblige("race-detector build of the hsrv harness", False, rlog[-2000:])
+    else:
+        rres, rerr = vlib.run_overlay_test(rbin, "TestVerifHsrv", [{"i": 0, "cfg": {}, "acts": [PAR_ACT(16, 6 if run.tier == "quick" else 40)]}], run.rundir,
+                                           tag="c07race", env=dict(os.environ, VERIF_TMP=run.rundir, GORACE="halt_on_error=0"), timeout=600)
+        races = (rerr or "").count("DATA RACE")
+        if races:
+            run.violation("script-data-race", "Go's race detector reports unsynchronised accesses while /c requests are served concurrently: what makes each "
+                          "script's ID fresh (or its text its own) is shared unsafely between requests",
+                          {"stream": "race", "input": {"concurrent_requests": "16 clients x 6 rounds of GET /c"}, "detail": {"report_tail": (rerr or "")[-2500:]}})
+        run.oblige("concurrent /c requests under the race detector: no data race reported", not races and not (rerr and "DATA RACE" not in rerr and not rres),
+                   (rerr or "")[-1500:])
     run.assumptions += ["text/template (engine), idna.ToASCII (verdict taken from the real library per request), curl and /bin/sh are environment",
                         "distinctness of IDs rests on math/rand; observed per run, injectivity of the base-36 rendering is proved"]
     run.trusted += ["harness/overlay/hsrv", "props/c07.py", "coq/Model/Script.v tied by this correspondence"]
